@@ -8,13 +8,13 @@ package sys
 //@ mode slices=value strings=smt
 
 //@ func ReadFile
-//@   props C16 C18 C07
+//@   props C16 C18 C07 C05
 //@   panics never
 //@   ensures ok: result.E1 == glob(fsr)[file]
 //@   ensures content: result.E1 ==> result.E0 == glob(fsc)[file]
 
 //@ func WriteFile
-//@   props C16 C18 C07
+//@   props C16 C18 C07 C05
 //@   modifies glob:fsr glob:fsc
 //@   panics never
 //@   ensures done: result ==> glob(fsc) == store(old(glob(fsc)), file, content) && glob(fsr) == store(old(glob(fsr)), file, true)
